@@ -34,5 +34,12 @@ let () =
   register "nvalid" (function [r; v; m; s] -> b2s (node_valid rules.(int_of_string r) (vk v) (bo m) (bo s)) | _ -> "ERR args");
   register "target" (function [ins] -> b2s (target_reports (vlist ins)) | _ -> "ERR args");
   register "build_ok" (function [c; f; e] -> b2s (build_ok (bo c) (nat_of_int (int_of_string f)) (nat_of_int (int_of_string e))) | _ -> "ERR args");
+  (* shortcut <can_update0> <allow_modified> <outputs_exist> <prior kind | none> <inputs> *)
+  register "shortcut" (function [cu; am; oe; pr; ins] ->
+      b2s (update_shortcut (bo cu) (bo am) (bo oe) (if pr = "none" then None else Some (vk pr)) (vlist ins)) | _ -> "ERR args");
+  (* runp <tool> <allow_missing> <can_update0> <allow_modified> <outputs_exist> <prior> <inputs> <exec> *)
+  register "runp" (function [t; a; cu; am; oe; pr; ins; x] ->
+      show_outcome (run_command_prior (tool_of t) (bo a) false true (bo cu) (bo am) (bo oe)
+                      (if pr = "none" then None else Some (vk pr)) (vlist ins) (ex x)) | _ -> "ERR args");
   register "launders" (function [t; n] -> b2s (launders (tool_of t) (nk n)) | _ -> "ERR args");
   register "uses_inputs" (function [t] -> b2s (uses_inputs (tool_of t)) | _ -> "ERR args")
